@@ -120,6 +120,8 @@ func c16ts(c *Ctx) {
 	zones := append([]*time.Location(nil), gen.Zones...)
 	// zones that sit at offset zero without being UTC
 	zones = append(zones, time.FixedZone("GMT", 0), time.FixedZone("WET", 0), time.FixedZone("Z", 0))
+	// and zones that are CALLED UTC without being it (a fixed zone is named by whoever builds it)
+	zones = append(zones, time.FixedZone("UTC", 2*3600), time.FixedZone("UTC", -5*3600-1800), time.FixedZone("", 3*3600), time.FixedZone("Local", -7*3600))
 	for _, n := range []string{"America/New_York", "Asia/Kolkata", "Australia/Lord_Howe", "Europe/Berlin", "Pacific/Chatham", "Europe/London", "Europe/Lisbon", "Africa/Abidjan", "Atlantic/Reykjavik"} {
 		if l, err := time.LoadLocation(n); err == nil {
 			zones = append(zones, l)
@@ -383,6 +385,15 @@ func c16ts(c *Ctx) {
 			tsAttrs = slog.Attrs{slog.NewAttr("at", other), slog.NewAttr("time", other)}
 			c.R.Add("records_with_an_attribute_called_time", 1)
 		}
+		// the record may have nothing to say (a blank message) at one of the levels no threshold silences: it is still a
+		// record, with its timestamp
+		plvl, pmsg, blank := slog.InfoLevel, "tsprobe", false
+		if !viaHandler && r.P(12) {
+			plvl = gen.Pick(r, []slog.Level{slog.OKLevel, slog.SuccessLevel, slog.FailLevel, slog.WarnLevel, slog.InfoLevel})
+			pmsg = gen.Pick(r, []string{"", "  ", "\t"})
+			blank = true
+			c.R.Add("records_with_a_blank_message_at_a_level_other_than_the_print_level", 1)
+		}
 		evs := capture(log, func() {
 			if viaHandler {
 				// the same instant through the log/slog adapter built on this logger (options: keep format and level)
@@ -391,16 +402,16 @@ func c16ts(c *Ctx) {
 				_ = h.Handle(bg, rec)
 				return
 			}
-			lg.WriteThru(bg, slog.InfoLevel, ts, thePC, "tsprobe", tsAttrs)
+			lg.WriteThru(bg, plvl, ts, thePC, pmsg, tsAttrs)
 		})
-		desc := map[string]any{"through_log_slog_handler": viaHandler, "set_form": setForm, "derived": derived, "earlier_record_under": earlier, "after_saveflags_window": window, "format": f.String(), "flags": flagNames(fl), "utc_mode": []string{"unset", "local (SetUTCMode(false))", "utc"}[utc], "logger_layout": layout, "instant": ts.Format(time.RFC3339Nano), "zone": ts.Location().String()}
+		desc := map[string]any{"level": plvl.String(), "message": pmsg, "through_log_slog_handler": viaHandler, "set_form": setForm, "derived": derived, "earlier_record_under": earlier, "after_saveflags_window": window, "format": f.String(), "flags": flagNames(fl), "utc_mode": []string{"unset", "local (SetUTCMode(false))", "utc"}[utc], "logger_layout": layout, "instant": ts.Format(time.RFC3339Nano), "zone": ts.Location().String()}
 		if len(evs) != 1 {
 			c.R.Violation(idx, "one-write", "C16/one-write", fmtEvents(evs), desc)
 			return
 		}
 		var d *decoded
 		var err error
-		if tsAttrs != nil {
+		if tsAttrs != nil || blank {
 			// the record's own timestamp leads the record; it is read from there (an attribute called time follows later)
 			lead, ok := leadingTimestamp(f, evs[0].Data)
 			if !ok {
